@@ -1,1 +1,306 @@
-//! Cooperative schedule controller (C16). Filled in with the C16 monitor.
+//! Cooperative schedule controller over real threads running the real code (C16).
+//!
+//! The crate's `verif_hooks` feature reports every lock attempt, lock release and atomic
+//! operation of a `SourceView` to a callback. Controlled worker threads park inside that
+//! callback; the controller (the calling thread) lets exactly one worker run from one yield
+//! point to the next. A schedule is therefore a finite word over worker ids and can be replayed.
+//!
+//! Lock ownership is tracked from the Acquired/Released events so that a worker that wants a
+//! lock held by a parked worker is never scheduled (it would block in the real mutex while the
+//! holder cannot move: a deadlock the program does not have). If no parked worker is runnable
+//! although some are unfinished, *that* is a deadlock of the code under test.
+
+use std::cell::Cell;
+use std::collections::HashMap;
+use std::sync::{Arc, Condvar, Mutex, OnceLock};
+use std::time::Duration;
+
+use sourcemap::verif_hooks::{set_hook, Event};
+
+#[derive(Clone, Copy, PartialEq, Eq, Debug)]
+enum WStatus {
+    NotStarted,
+    Running,
+    Parked,
+    Finished,
+}
+
+struct WState {
+    status: WStatus,
+    wants_lock: Option<usize>,
+    /// label of the yield point the worker is parked at
+    at: &'static str,
+    /// number of yield points passed
+    steps: u32,
+}
+
+struct State {
+    workers: Vec<WState>,
+    turn: Option<usize>,
+    held: HashMap<usize, usize>,
+    active: bool,
+}
+
+struct Shared {
+    state: Mutex<State>,
+    cv: Condvar,
+}
+
+thread_local! {
+    static WORKER_ID: Cell<Option<usize>> = const { Cell::new(None) };
+}
+
+fn shared() -> &'static Arc<Shared> {
+    static S: OnceLock<Arc<Shared>> = OnceLock::new();
+    S.get_or_init(|| {
+        let s = Arc::new(Shared {
+            state: Mutex::new(State { workers: vec![], turn: None, held: HashMap::new(), active: false }),
+            cv: Condvar::new(),
+        });
+        let s2 = s.clone();
+        set_hook(Some(Arc::new(move |ev| on_event(&s2, ev))));
+        s
+    })
+}
+
+fn lock_state(s: &Shared) -> std::sync::MutexGuard<'_, State> {
+    s.state.lock().unwrap_or_else(|p| p.into_inner())
+}
+
+fn park(s: &Shared, me: usize, at: &'static str, wants: Option<usize>) {
+    let mut st = lock_state(s);
+    if !st.active {
+        return;
+    }
+    {
+        let w = &mut st.workers[me];
+        w.status = WStatus::Parked;
+        w.at = at;
+        w.wants_lock = wants;
+        w.steps += 1;
+    }
+    st.turn = None;
+    s.cv.notify_all();
+    while st.active && st.turn != Some(me) {
+        st = s.cv.wait(st).unwrap_or_else(|p| p.into_inner());
+    }
+    if st.active {
+        st.workers[me].status = WStatus::Running;
+        st.workers[me].wants_lock = None;
+    }
+}
+
+fn on_event(s: &Shared, ev: Event) {
+    let me = match WORKER_ID.with(|w| w.get()) {
+        Some(m) => m,
+        None => return, // not a controlled thread
+    };
+    match ev {
+        Event::Acquired(id) => {
+            lock_state(s).held.insert(id, me);
+        }
+        Event::Released(id) => {
+            lock_state(s).held.remove(&id);
+        }
+        Event::LockAttempt(id) => park(s, me, "lock", Some(id)),
+        Event::AfterUnlock(_) => park(s, me, "unlocked", None),
+        Event::Atomic(op, _) => park(
+            s,
+            me,
+            match op {
+                "load" => "atomic-load",
+                "fetch_add" => "atomic-fetch_add",
+                "store" => "atomic-store",
+                _ => "atomic-other",
+            },
+            None,
+        ),
+    }
+}
+
+#[derive(Debug, Clone)]
+pub struct Decision {
+    /// runnable workers at this point, the previously running one first (if still runnable)
+    pub options: Vec<usize>,
+    pub chosen_index: usize,
+    /// options[0] is the worker that ran last (choosing another index preempts it)
+    pub prev_first: bool,
+    /// yield-point label of every worker at this point (the "yield-point vector")
+    pub vector: Vec<(&'static str, u32)>,
+}
+
+#[derive(Debug)]
+pub enum Stuck {
+    /// unfinished workers exist but none is runnable
+    Deadlock(Vec<(&'static str, Option<usize>)>),
+    /// the running worker neither parked nor finished within the wall-clock guard
+    NoProgress,
+}
+
+pub struct RunOutcome<R> {
+    pub decisions: Vec<Decision>,
+    pub results: Vec<Option<R>>,
+    pub stuck: Option<Stuck>,
+    pub preemptions: u32,
+}
+
+pub enum Policy<'a> {
+    /// follow these option indices, then always option 0 (= keep running the same worker)
+    Prefix(&'a [usize]),
+    /// pick uniformly at random among the options
+    Random(&'a mut crate::rng::Rng),
+}
+
+/// Runs `bodies` (one closure per worker) on real threads under the controller.
+pub fn run_controlled<R: Send + 'static>(bodies: Vec<Box<dyn FnOnce() -> R + Send + 'static>>, mut policy: Policy<'_>) -> RunOutcome<R> {
+    let s = shared().clone();
+    let n = bodies.len();
+    {
+        let mut st = lock_state(&s);
+        st.workers = (0..n).map(|_| WState { status: WStatus::NotStarted, wants_lock: None, at: "start", steps: 0 }).collect();
+        st.turn = None;
+        st.held.clear();
+        st.active = true;
+    }
+    let results: Arc<Mutex<Vec<Option<R>>>> = Arc::new(Mutex::new((0..n).map(|_| None).collect()));
+    let mut handles = vec![];
+    for (i, body) in bodies.into_iter().enumerate() {
+        let s = s.clone();
+        let results = results.clone();
+        handles.push(std::thread::spawn(move || {
+            WORKER_ID.with(|w| w.set(Some(i)));
+            park(&s, i, "start", None);
+            let r = body();
+            results.lock().unwrap_or_else(|p| p.into_inner())[i] = Some(r);
+            WORKER_ID.with(|w| w.set(None));
+            let mut st = lock_state(&s);
+            if st.active {
+                st.workers[i].status = WStatus::Finished;
+                st.workers[i].at = "finished";
+                st.turn = None;
+                s.cv.notify_all();
+            }
+        }));
+    }
+    let mut decisions: Vec<Decision> = vec![];
+    let mut prev: Option<usize> = None;
+    let mut preemptions = 0u32;
+    let mut stuck = None;
+    loop {
+        let mut st = lock_state(&s);
+        // wait until nobody is running and everybody has reached its first park
+        let mut waited = Duration::ZERO;
+        loop {
+            let busy = st.turn.is_some() || st.workers.iter().any(|w| matches!(w.status, WStatus::Running | WStatus::NotStarted));
+            if !busy {
+                break;
+            }
+            let (g, to) = s.cv.wait_timeout(st, Duration::from_millis(500)).unwrap_or_else(|p| p.into_inner());
+            st = g;
+            if to.timed_out() {
+                waited += Duration::from_millis(500);
+                if waited > Duration::from_secs(60) {
+                    stuck = Some(Stuck::NoProgress);
+                    break;
+                }
+            }
+        }
+        if stuck.is_some() {
+            break;
+        }
+        if st.workers.iter().all(|w| w.status == WStatus::Finished) {
+            break;
+        }
+        let mut options: Vec<usize> = (0..n)
+            .filter(|&i| st.workers[i].status == WStatus::Parked && st.workers[i].wants_lock.map_or(true, |l| !st.held.contains_key(&l)))
+            .collect();
+        if options.is_empty() {
+            stuck = Some(Stuck::Deadlock(st.workers.iter().map(|w| (w.at, w.wants_lock)).collect()));
+            break;
+        }
+        let prev_runnable = prev.is_some_and(|p| options.contains(&p));
+        if let Some(p) = prev {
+            if prev_runnable {
+                options.retain(|&x| x != p);
+                options.insert(0, p);
+            }
+        }
+        let k = decisions.len();
+        let idx = match &mut policy {
+            Policy::Prefix(p) => p.get(k).copied().unwrap_or(0).min(options.len() - 1),
+            Policy::Random(r) => r.usize_below(options.len()),
+        };
+        let chosen = options[idx];
+        if prev_runnable && Some(chosen) != prev {
+            preemptions += 1;
+        }
+        decisions.push(Decision { options: options.clone(), chosen_index: idx, prev_first: prev_runnable, vector: st.workers.iter().map(|w| (w.at, w.steps)).collect() });
+        prev = Some(chosen);
+        st.turn = Some(chosen);
+        s.cv.notify_all();
+    }
+    // release everybody (also after a deadlock) and collect
+    {
+        let mut st = lock_state(&s);
+        st.active = false;
+        st.turn = None;
+        s.cv.notify_all();
+    }
+    if stuck.is_none() {
+        for h in handles {
+            let _ = h.join();
+        }
+    } else {
+        // workers may be blocked for real: give them a moment, then leave them detached
+        std::thread::sleep(Duration::from_millis(200));
+    }
+    let results = std::mem::take(&mut *results.lock().unwrap_or_else(|p| p.into_inner()));
+    RunOutcome { decisions, results, stuck, preemptions }
+}
+
+/// Depth-first enumeration of all schedules with at most `max_preemptions` preemptive context
+/// switches. `run` executes one schedule for a given prefix of option indices.
+pub struct Dfs {
+    stack: Vec<(usize, usize, bool)>, // (chosen index, number of options, choosing index>0 is a preemption)
+    started: bool,
+    pub max_preemptions: u32,
+}
+
+impl Dfs {
+    pub fn new(max_preemptions: u32) -> Dfs {
+        Dfs { stack: vec![], started: false, max_preemptions }
+    }
+
+    /// Prefix to run next, or None when the space is exhausted.
+    pub fn next_prefix(&mut self) -> Option<Vec<usize>> {
+        if !self.started {
+            self.started = true;
+            return Some(vec![]);
+        }
+        // backtrack: deepest position with an untried option within the preemption budget
+        while let Some((idx, nopts, preemptive_pos)) = self.stack.pop() {
+            if idx + 1 < nopts {
+                let used: u32 = self.stack.iter().filter(|(i, _, p)| *p && *i > 0).count() as u32;
+                let cost = if preemptive_pos { 1 } else { 0 };
+                if used + cost <= self.max_preemptions {
+                    self.stack.push((idx + 1, nopts, preemptive_pos));
+                    return Some(self.stack.iter().map(|x| x.0).collect());
+                }
+            }
+        }
+        None
+    }
+
+    /// Records what the run of the last prefix actually did.
+    pub fn record(&mut self, decisions: &[Decision]) {
+        let keep = self.stack.len().min(decisions.len());
+        // positions < keep were dictated by the prefix; refresh their option counts
+        for (k, d) in decisions.iter().enumerate().take(keep) {
+            self.stack[k] = (d.chosen_index, d.options.len(), d.prev_first);
+        }
+        self.stack.truncate(keep);
+        for d in decisions.iter().skip(keep) {
+            self.stack.push((d.chosen_index, d.options.len(), d.prev_first));
+        }
+    }
+}
